@@ -103,6 +103,8 @@ META = {
                      "Preconditions: one start point given or omitted as a whole, bounds already 1 x D arrays, no constraint function. The argument spellings handled by BADS.__init__ "
                      "(lists, scalars, integer dtype, omitted arguments, dimension inference) and 'no target call at construction' are checked by the bounded layer only."),
     "C07": dict(level="other",
+                technique="contract on the real _init_random_seed_ discharged by z3, plus effect / typestate / frame scans over the real AST (seeding precedes every draw, no global state, "
+                          "no entropy source); the two-run statement itself by bounded comparison of real runs",
                 text="The causes of irreproducibility that effect contracts and scans over the real source can decide: the seed is applied (contract on _init_random_seed_) before every "
                      "statement that can draw from NumPy's global generator in the constructor and in optimize(), nothing in the library writes module-level or class-level state or reads "
                      "the clock / OS entropy outside the timer, and the Sobol design is seeded explicitly. The two-run statement itself is only observed (bounded).",
@@ -110,12 +112,16 @@ META = {
                      "closure resolves callees by simple name (over-approximation), and aliasing of mutable state through object attributes is not tracked. The bounded layer compares real runs "
                      "under different process histories."),
     "C20": dict(level="exploration",
+                technique="bounded exploration of the real constructor / Options class (stand-in, labelled bounded: the option loader is outside the verifier's language fragment) "
+                          "plus syntactic obligations over the real source (loader structure, global-state frame scan); nothing is counted as proved",
                 text="Bounded exploration on the real code (labelled bounded, nothing counted as proved): every option name x D = 1..3 as a single override, subsets of overrides, unknown names, "
                      "defaults against an independent evaluation of the option files, construct/run orders of several instances, caller-owned dict and arrays compared before and after; "
                      "plus syntactic obligations on the loader's structure and a global-state frame scan.",
                 note="Contract-based verification does not apply to the loader itself (exec/eval of option-file text, configparser, dict subclass with symbolic string keys): outside the "
                      "language fragment of the verifier; see DESIGN.md. The bound: option values are one tweak per option, D <= 4, 4 instances per order."),
     "C09": dict(level="other",
+                technique="contract-based deductive verification of safety obligations (opt-in IndexError / UnboundLocalError / empty-reduction semantics, exceptional contracts) on the real "
+                          "search and poll functions, discharged by z3; the whole-run statement by bounded full runs with forced rare histories",
                 text="A stated subset of crash freedom as safety obligations on the real search-step functions (no IndexError, no UnboundLocalError, no undeclared exception class, for every "
                      "outcome of the candidate filter); the property as a whole (optimize() returns for every valid problem in every mode) is only "
                      "observed on full runs with rare internal histories forced (bounded).",
@@ -128,5 +134,5 @@ META = {
                 note=PROOF_NOTE + " Preconditions: sloppy_improvement True, improvement_quantile 0.5, no stobads, fresh log (no preloaded fun_values), uncertainty level 0. "
                      "The per-iteration history clause (recorded fval never increases) and target_type/OptimizeResult copying are checked only by the bounded panel."),
     "C06": dict(not_applicable="population-level convergence quality of a numerical optimiser (success rate over random quadratics): no function-level "
-                               "contract expresses a rate and GP regression numerics are outside any solver here; see DESIGN.md section 7/C06"),
+                               "contract expresses a rate and GP regression numerics are outside any solver here; see DESIGN.md section 9"),
 }
